@@ -19,6 +19,7 @@ Entity._crashed (set to stop a member).
 """
 from __future__ import annotations
 
+import copy
 import math
 from fractions import Fraction
 
@@ -574,7 +575,13 @@ def gen_phi(rng):
         r = rng.random()
         if r < 0.45:
             t += rng.choice([0, 1, 16, 32, 64, 64, 65, 128, rng.randint(0, 400)])
+            # reads at the very instant of the heartbeat, before and after it (the window may be saturated,
+            # so that the heartbeat replaces a sample without changing the sample count)
+            if rng.random() < 0.3:
+                ops.append(["q", t])
             ops.append(["hb", t])
+            if rng.random() < 0.3:
+                ops.append(["q", t])
         elif r < 0.5:
             ops.append(["hb", max(0, t - rng.randint(0, 64))])      # time going backwards
             t = ops[-1][1]
@@ -600,8 +607,10 @@ def impl_phi(case):
             ph = d.phi(ts)
             cls = 0 if ph < LOG10_2 - 1e-9 else (2 if ph <= LOG10_2 + 1e-9 else 3)
             # monotonicity probe on a fine increasing grid after the last heartbeat
+            # (on a copy: the probe reads must not disturb whatever the detector remembers between the case's own reads)
             base = d.last_heartbeat if d.last_heartbeat is not None else 0.0
-            vals = [d.phi(base + j / 16.0) for j in range(0, 400)]
+            probe = copy.deepcopy(d)
+            vals = [probe.phi(base + j / 16.0) for j in range(0, 400)]
             grid.append([v if math.isfinite(v) else 1e308 for v in vals])
         ivs = [list(Fraction(x).as_integer_ratio()) for x in d._intervals]
         lh = d.last_heartbeat
@@ -630,6 +639,79 @@ def oracle_phi(c, o):
                 return [dict(clause="phi never decreases while no heartbeat arrives", before=a, after=b, mechanism="phi-decreased")]
     return []
 
+
+
+# --------------------------------------------------------------------------- bootstrap order (oracle only)
+def gen_bootstrap(rng):
+    n = rng.choice([2, 3, 3, 4, 5])
+    return dict(n=n, p=rng.choice([0.5, 1.0]), seed=rng.randrange(1000), crash=round(rng.uniform(6.0, 12.0), 3),
+                start_first=[rng.random() < 0.6 for _ in range(n)], victim=rng.randrange(n))
+
+
+def impl_bootstrap(c):
+    """Plain MembershipProtocol nodes on a fast loss-free network; every node is either introduced to its peers and
+    then started, or started first and introduced afterwards (all at time 0); one member is cut off for good."""
+    import random as _r
+    from happysimulator.components.consensus.membership import MembershipProtocol, MemberState
+    from happysimulator.components.network.link import NetworkLink
+    from happysimulator.components.network.network import Network
+    from happysimulator.core.event import Event
+    from happysimulator.core.simulation import Simulation
+    from happysimulator.core.temporal import Instant
+    from happysimulator.distributions.constant import ConstantLatency
+    from hsverif.util import run_bounded
+    _r.seed(c["seed"])
+    n, p = c["n"], c["p"]
+    net = Network(name="net")
+    nodes = [MembershipProtocol(f"m{i}", net, probe_interval=p, suspicion_timeout=3.0 * p, phi_threshold=8.0) for i in range(n)]
+    for i, a in enumerate(nodes):
+        for b in nodes[i + 1:]:
+            net.add_bidirectional_link(a, b, NetworkLink(name=f"l{i}_{b.name}", latency=ConstantLatency(0.002)))
+    crash_at = c["crash"] * p
+    rounds = 2 * (n - 1) + 1
+    check_at = crash_at + (rounds + 1) * p + 3.0 * p
+    sim = Simulation(duration=check_at + 4 * p, entities=[net, *nodes])
+    pending = []
+    for i, nd in enumerate(nodes):
+        if c["start_first"][i]:
+            pending += nd.start()
+    for a in nodes:
+        for b in nodes:
+            if a is not b:
+                a.add_member(b)
+    for i, nd in enumerate(nodes):
+        if not c["start_first"][i]:
+            pending += nd.start()
+    for e in pending:
+        sim.schedule(e)
+    victim = nodes[c["victim"]]
+    survivors = [x for x in nodes if x is not victim]
+    views = {}
+    sim.schedule(Event.once(time=Instant.from_seconds(crash_at), event_type="CutOff", fn=lambda e: net.partition([victim], survivors)))
+    sim.schedule(Event.once(time=Instant.from_seconds(check_at), event_type="Look",
+                            fn=lambda e: views.update({x.name: x.get_member_state(victim.name).name for x in survivors})))
+    _, verdict = run_bounded(sim, wall_s=30.0)
+    final = {x.name: {y.name: x.get_member_state(y.name).name for y in nodes if y is not x} for x in survivors}
+    return dict(verdict=verdict, at_check=views, final=final, victim=victim.name, probes={x.name: x.stats.probes_sent for x in survivors})
+
+
+def oracle_bootstrap(c, o):
+    if o["verdict"] != "ok":
+        return [dict(clause=f"bootstrap run ended with {o['verdict']}")]
+    for name, st in sorted(o["at_check"].items()):
+        if st == "ALIVE":
+            return [dict(clause="a member that stops responding for good stops being reported ALIVE by every live member within a bounded number of probe rounds",
+                         mechanism="probe-loop-not-running" if o["probes"].get(name, 0) == 0 else "still-alive", observer=name, victim=o["victim"],
+                         probes_sent=o["probes"].get(name))]
+    for name, view in sorted(o["final"].items()):
+        for other, st in sorted(view.items()):
+            if other != o["victim"] and st == "DEAD":
+                return [dict(clause="a member that keeps answering within the ack timeout is never declared DEAD", observer=name, member=other)]
+    return []
+
+
+FAM_BOOT = Family("bootstrap", "", "", "", gen_bootstrap, impl_bootstrap, lambda c, o: "", oracle_bootstrap,
+                  nontrivial=lambda c, o: any(c["start_first"]))
 
 # --------------------------------------------------------------------------- families
 FAMILIES = [
@@ -681,6 +763,8 @@ def run(ctx):
         stats.append(run_family(ctx, fam, n))
         ctx.log(f"family {fam.name}: {stats[-1]['cases']} cases, {stats[-1]['mismatches']} mismatches, "
                 f"{stats[-1]['oracle_failures']} oracle failures")
+    from hsverif.family import run_oracle_only
+    ctx.coverage["oracle_only_families"] = [run_oracle_only(ctx, FAM_BOOT, ctx.n(30, 300))]
     merge_stats(ctx, stats, "cluster: random scenario (2-5 nodes; healthy / one stopped member / slow links / injected forged events); "
                             "non-trivial = long enough to pass the detection deadline (crash), >= 6 handler calls per node (healthy), "
                             "reaches the indirect/suspicion/DEAD paths (slow, adversarial); phi: query with elapsed > mean; distinct by JSON of the input")
